@@ -281,8 +281,12 @@ class PointChargeIntegral(BaseTwoIndexSymmetric):
         # When both shells have the same angular momentum, the recursion is carried out on the tighter
         # shell: the centre of the product Gaussian is then close to the centre on which the angular
         # momentum is built up, and fewer digits are lost in the transfer to the second shell.
+        # For contractions, "tighter" is judged by the worst pair of primitives: with the recursion
+        # on the first shell that is its most diffuse primitive against the tightest of the second.
         ab_swapped = False
-        if angmom_a < angmom_b or (angmom_a == angmom_b and exps_a.max() < exps_b.max()):
+        if angmom_a < angmom_b or (
+            angmom_a == angmom_b and exps_a.max() / exps_b.min() < exps_b.max() / exps_a.min()
+        ):
             coord_a, coord_b = coord_b, coord_a
             angmom_a, angmom_b = angmom_b, angmom_a
             angmoms_a, angmoms_b = angmoms_b, angmoms_a
